@@ -436,7 +436,7 @@ Scalar MASA::sod_1d<Scalar>::rtbis(Scalar x1,Scalar x2,Scalar xacc,int JMAX)
       xmid=myval+dx;
       fmid=func(xmid);
       if(fmid <= 0.) myval=xmid;
-      if(abs(dx) < xacc || fmid < thresh) 
+      if(abs(dx) < xacc || abs(fmid) < thresh) 
 	return(myval);
     }
   
